@@ -107,15 +107,22 @@ Definition site_eqb (a b : string * N) : bool := String.eqb (fst a) (fst b) && N
    Replace / copy site or MORE of them need review; fewer writes cannot damage more), and every reviewed astcopy site is still
    there with at least its count as long as the function has any site left (a vanished COPY in a function that still writes
    is exactly the seeded defect). *)
+(* Benign kinds need no review and no copy: a top-level field assignment to a LOCAL struct value (`x := *node; x.Op = ..`:
+   the function's own cell, Model_Heap.run_shallowCopy / C05_shallowCopy_frame) and the shallow copy itself. A write THROUGH a
+   field of such a copy (x.List[0] = .., x.X.( *ast.Ident).Name = ..) is an ordinary field-write / slice-elem-write site. *)
+Definition benign_site (s : string * N) : bool := has_prefix "local-value-write:" (fst s) || has_prefix "shallowcopy:" (fst s).
 Definition fn_sites_within (obs rev : list (string * N)) : bool :=
+  let obs := filter (fun o => negb (benign_site o)) obs in
   forallb (fun o => existsb (fun r => String.eqb (fst o) (fst r) && (snd o <=? snd r)%N) rev) obs
   && forallb (fun r => negb (has_prefix "astcopy:" (fst r))
+                       || match filter (fun o => negb (has_prefix "astcopy:" (fst o))) obs with [] => true | _ => false end
                        || existsb (fun o => String.eqb (fst o) (fst r) && (snd r <=? snd o)%N) obs) rev.
 Definition fn_reviewed (tbl : list reviewed_fn) (m : mut_fn) : bool :=
+  match filter (fun o => negb (benign_site o)) (mf_sites m) with [] => true | _ =>
   match find (fun r => String.eqb (rf_file r) (mf_file m) && String.eqb (rf_fn r) (mf_fn m)) tbl with
   | Some r => fn_sites_within (mf_sites m) (rf_sites r)
   | None => false
-  end.
+  end end.
 
 (* the converse direction: a reviewed function that must still be present with its copy call
    (a vanished astcopy call breaks fn_reviewed above because the site list changes; a vanished
